@@ -381,7 +381,9 @@ MORE_THM = {
         "first left them and answers the NotFound of the missing bucket after an ok; a second clear answers ok on the empty "
         "cache; the abstract removal and clear are idempotent for every abstract state (removeFully_idempotent, "
         "removeFully_again_answers_notFound, clear_idempotent, spec_removals_idempotent).",
- "C15": " PROGRAM LEVEL: every path argument of find / insert / delete for a key is its bucket path or that path's parent; "
+ "C15": " HISTORY LEVEL (Props/C15x, Lemmas/SpecLaws): deleting every keyed read, lookup, by-address read and exists from any "
+        "history on a healthy cache leaves every other answer and the final abstract cache unchanged "
+        "(reads_do_not_mutate_any_history). PROGRAM LEVEL: every path argument of find / insert / delete for a key is its bucket path or that path's parent; "
         "keys with equal SHA-1 touch the same index paths and nothing else of the key reaches a path (index_ops_paths, "
         "same_sha1_same_paths).",
  "C16": " From any healthy cache, writing the same bytes twice (any flavours, any keys) leaves the file at the address "
